@@ -17,7 +17,9 @@ fn n(kind: &str, owner: usize, aname: &str, how: &str, path: &[i64], text: &str)
     json!({"kind": kind, "owner": owner, "aname": aname, "how": how, "path": path, "text": text})
 }
 
-const DOC: &str = "<!DOCTYPE r><?p d?><r y=\"1\" z=\"2\"><a><b/>uvw<c x=\"3\"/></a>txyz<!--k--><d><e/></d></r>";
+// (namespace declarations written AFTER an ordinary attribute: in document order an element's namespace nodes still come
+// before its attributes, on a fresh parse and after any renumbering)
+const DOC: &str = "<!DOCTYPE r><?p d?><r y=\"1\" xmlns:p=\"u\" z=\"2\"><a><b/>uvw<c x=\"3\" xmlns:q=\"v\"/></a>txyz<!--k--><d><e/></d></r>";
 
 /// 30 nodes: a parsed document with every movable kind, factory-made nodes, a foreign document.
 pub fn big_pool() -> J {
@@ -70,6 +72,10 @@ const BATTERY: &[&str] = &[
     "//d/descendant-or-self::node()", "//*/child::node()[2]", "//*[not(*)]", "/descendant::*[2]",
     "//a/parent::*/child::*", "//c/following::*", "//g/preceding::*", "count(//@*)", "string(/)",
     "//*[. = 'u']", "//node()[2]/preceding-sibling::node()",
+    // 0 iff the first node of (attributes | namespace nodes) of the element is a namespace node / the last an attribute
+    "count((/r/@* | /r/namespace::*)[1] | /r/namespace::*) - count(/r/namespace::*)",
+    "count((//c/@* | //c/namespace::*)[1] | //c/namespace::*) - count(//c/namespace::*)",
+    "count((/r/@* | /r/namespace::*)[last()] | /r/@*) - count(/r/@*)",
 ];
 
 /// id -> (structural path, pre-order index), computed by walking child_nodes()/attributes()
